@@ -62,7 +62,7 @@ Arith(op, x, y) ==
   CASE op = "+" -> NumResult(DAdd(x, y))
     [] op = "-" -> NumResult(DSub(x, y))
     [] op = "*" -> NumResult(DMul(x, y))
-    [] op = "%" -> IF DIsZero(y) THEN ERR ELSE IF AlignOverflows(x, y) THEN DC ELSE NumResult(DRem(x, y))
+    [] op = "%" -> IF DIsZero(y) THEN ERR ELSE NumResult(DRem(x, y))
     [] op = "/" -> IF DIsZero(y) THEN ERR
                    ELSE LET t == DDivTry(x, y) IN
                         IF Overflows(t[2]) THEN ERR
